@@ -304,6 +304,47 @@ def run(ctx):
                   message=f"{mf.name}: for_update=True does not reach with_for_update() before the query runs",
                   how="true branch of `if for_update` passes with_for_update before execution")
 
+    # ---------------------------------------------------------------- R03.6 uniqueness constraints
+    ctx.rule("R03.6", "RDB: the uniqueness the contract relies on under concurrent writers is declared in the schema "
+             "(study name once; one row per (owner, key) so that racing writers cannot both insert)")
+    want = {"StudyDirectionModel": ("study_id", "objective"), "StudyUserAttributeModel": ("study_id", "key"),
+            "StudySystemAttributeModel": ("study_id", "key"), "TrialUserAttributeModel": ("trial_id", "key"),
+            "TrialSystemAttributeModel": ("trial_id", "key"), "TrialParamModel": ("trial_id", "param_name"),
+            "TrialValueModel": ("trial_id", "objective"), "TrialIntermediateValueModel": ("trial_id", "step"),
+            "TrialHeartbeatModel": ("trial_id",)}
+    mm = p.module("optuna.storages._rdb.models")
+    n_u = 0
+    for cname, cols in sorted(want.items()):
+        c = mm.classes.get(cname)
+        ctx.require(c is not None, f"R03.6: model {cname} vanished")
+        found = []
+        for st in c.node.body:
+            tg = st.targets[0] if isinstance(st, ast.Assign) else (st.target if isinstance(st, ast.AnnAssign) else None)
+            if tg is not None and norm(tg) == "__table_args__" and st.value is not None:
+                for x in ast.walk(st.value):
+                    if isinstance(x, ast.Call) and dotted(x.func) == "UniqueConstraint":
+                        found.append(tuple(a.value for a in x.args if isinstance(a, ast.Constant)))
+        n_u += 1
+        ctx.check(cols in found, "R03.6", mm.relpath + "::" + cname, "unique:" + ",".join(cols),
+                  message=f"{cname} no longer declares UniqueConstraint{cols}: two concurrent writers can both insert a row for the same key "
+                          f"(duplicate attrs/params/values; the IntegrityError the storage relies on to detect the race never fires)",
+                  how="UniqueConstraint in __table_args__")
+    sm = mm.classes.get("StudyModel")
+    ok = False
+    for st in sm.node.body:
+        if isinstance(st, ast.Assign) and norm(st.targets[0]) == "study_name" and isinstance(st.value, ast.Call):
+            u = kwarg(st.value, "unique")
+            ok = isinstance(u, ast.Constant) and u.value is True
+    ctx.check(ok, "R03.6", mm.relpath + "::StudyModel", "unique:study_name",
+              message="StudyModel.study_name is not unique: two concurrent create_new_study calls with one name both succeed", how="unique=True")
+    ctx.floor("R03.6", "unique_constraints", n_u, 9)
+    # create_new_study turns the resulting IntegrityError into DuplicatedStudyError
+    f = p.lookup_method(rdb, "create_new_study")
+    hs = [h for h in own_nodes(f.node) if isinstance(h, ast.ExceptHandler) and "IntegrityError" in norm(h.type)]
+    ok = bool(hs) and any(isinstance(x, ast.Raise) and "DuplicatedStudyError" in norm(x) for h in hs for x in ast.walk(h))
+    ctx.check(ok, "R03.6", f.short, "duplicate-name-detected", message="create_new_study does not map the unique-violation to DuplicatedStudyError",
+              how="except IntegrityError: raise DuplicatedStudyError")
+
     # ---------------------------------------------------------------- R03.5 self deadlock
     ctx.rule("R03.5", "non-reentrant locks are never re-acquired by a callee inside a held region")
     for info in (inm, jr, cs, gc):
